@@ -131,6 +131,10 @@ func (c *Ctx) solve(o *Obligation, opts solveOpts) {
 		file = file[:200] + ".smt2"
 	}
 	os.WriteFile(file, []byte(text), 0o644)
+	if d := os.Getenv("GOVC_KEEPALL"); d != "" {
+		os.MkdirAll(d, 0o755)
+		os.WriteFile(filepath.Join(d, filepath.Base(file)), []byte(text), 0o644)
+	}
 	ctx, cancel := context.WithCancel(context.Background())
 	defer cancel()
 	type ans struct {
